@@ -716,23 +716,46 @@ def table_collides(rows):
 
 
 def oracle_remap(c, i):
+    """failures as (kind, case, expected, observed, what); a wrong entry is reported on the sub-case made of that
+    entry and the rows of its product (rows of other products cannot bear on it)"""
     fails = []
     deps_in = [norm_in_dep(d) for d in c["deps"]]
-    exp = []
-    for d in deps_in:
-        exp += expected_remap_dep(c["rows"], c["fl"], d)
-    if i["remap"] != exp:
-        fails.append(("remap-exact", exp, "remapEntries gives %s" % json.dumps(i["remap"])[:400]))
+    exp, seen_sub, per_entry = [], set(), []
+    for d0, d, a in zip(c["deps"], deps_in, i["apply"]):
+        e = expected_remap_dep(c["rows"], c["fl"], d)
+        exp += e
+        if a[1] is None:
+            got = []
+        elif (a[0], a[1]) == (d["product"], d["version"]):
+            got = [d]
+        else:
+            got = [{"product": a[0], "version": a[1], "flavor": None, "table": None, "dir": None, "distid": None,
+                    "opt": False, "recurse": False, "extra": []}]
+        per_entry += got
+        if got != e:
+            sub = {"kind": "remap", "rows": [r for r in c["rows"] if r[0] == d["product"]], "fl": c["fl"],
+                   "deps": [d0], "style": c.get("style", "?")}
+            key = json.dumps(sub, sort_keys=True)
+            if key not in seen_sub:
+                seen_sub.add(key)
+                fails.append(("remap-exact", sub, e, got, "the table says %s for %s %s; remapEntries gives %s" % (
+                    table_says(c["rows"], c["fl"], d["product"], d["version"]), d["product"], d["version"],
+                    json.dumps(got)[:200])))
+    if i["remap"] != per_entry:
+        fails.append(("remap-list", c, per_entry, i["remap"], "remapEntries on the list differs from entry-wise apply"))
+    elif i["remap"] != exp and not fails:
+        fails.append(("remap-exact", c, exp, i["remap"], "remapEntries gives %s" % json.dumps(i["remap"])[:400]))
     if table_collides(c["rows"]) and not isinstance(i["inverse"], dict):
-        fails.append(("inverse-rejects", "RuntimeError", "inverse() accepted a table with two rows of one flavor "
-                      "that have the same target"))
+        fails.append(("inverse-rejects", c, "RuntimeError", i["inverse"],
+                      "inverse() accepted a table with two rows of one flavor that have the same target"))
     if one_to_one(c):
         if isinstance(i["inverse"], dict):
-            fails.append(("inverse-undoes", None, "inverse() refused a one-to-one table"))
+            fails.append(("inverse-undoes", c, None, i["inverse"], "inverse() refused a one-to-one table"))
         else:
             for q, (a, b) in zip(queries(c), i["undo"]):
                 if b != q:
-                    fails.append(("inverse-undoes", q, "apply gives %r and the inverse maps that to %r" % (a, b)))
+                    fails.append(("inverse-undoes", c, q, [a, b],
+                                  "apply gives %r and the inverse maps that to %r" % (a, b)))
                     break
     return fails
 
@@ -849,41 +872,11 @@ def evaluate(ctx, cases, count=True):
             if m["entry_ok"] != okpy:
                 ctx.disagree(c, m["entry_ok"], okpy, where="finding signatures: coq vs python")
             for o in oracle_remap(c, i):
-                ctx.fail(o[0], c, expected=o[1], observed=i.get("remap") if o[0] == "remap-exact" else i.get("inverse"),
-                         what=o[2])
+                ctx.fail(o[0], o[1], expected=o[2], observed=o[3], what=o[4])
             if count:
                 ctx.traces_validated += 1
         results.append((c, m, i))
     return results
-
-
-def shrink_failures(ctx):
-    """replace each remap failure by the smallest sub-case that still fails (one entry, only the rows of its
-    product), re-running the real code on the candidates"""
-    big = [f for f in ctx.failures if f["input"].get("kind") == "remap" and f["kind"] == "remap-exact"
-           and (len(f["input"]["deps"]) > 1 or len(f["input"]["rows"]) > 1)]
-    if not big:
-        return
-    cands = []
-    for f in big[:400]:
-        c = f["input"]
-        for d in c["deps"]:
-            rows = [r for r in c["rows"] if r[0] == d["product"]]
-            cands.append({"kind": "remap", "rows": rows, "fl": c["fl"], "deps": [d], "style": c.get("style", "?")})
-    keep = [f for f in ctx.failures if f not in big[:400]]
-    ctx.failures = keep
-    seen = set()
-    uniq = []
-    for c in cands:
-        key = json.dumps(c, sort_keys=True)
-        if key not in seen:
-            seen.add(key)
-            uniq.append(c)
-    before = len(ctx.failures)
-    evaluate(ctx, uniq, count=False)
-    # drop rows one at a time while the case still fails
-    small = ctx.failures[before:]
-    ctx.failures = ctx.failures[:before] + [f for f in small if f["kind"] == "remap-exact"]
 
 
 def corpus_cases():
@@ -920,6 +913,8 @@ def setup_ctx(ctx):
 def run(ctx):
     setup_ctx(ctx)
     ctx.check_theorems()
+    if ctx.tier == "thorough":
+        ctx.coqchk(["Eupsv.Props.C18"])
     cases = corpus_cases()
     rng = ctx.rng
     for _ in range(ctx.size(1500, 40000)):
@@ -936,7 +931,6 @@ def run(ctx):
         ctx.sample(c)
     for i in range(0, len(cases), 5000):
         evaluate(ctx, cases[i:i + 5000])
-    shrink_failures(ctx)
 
 
 def replay(ctx, path):
